@@ -512,3 +512,15 @@ func init() {
 		mutant{Name: "function-bodies-followed-only-for-initialisers-with-a-call", Prop: "C15", File: "interp/cfg.go", Old: "\t\t\tcase sym.kind == funcSym && sym.node != nil && sym.node.kind == funcDecl && !seen[sym.node]:\n", New: "\t\t\tcase calls && sym.kind == funcSym && sym.node != nil && sym.node.kind == funcDecl && !seen[sym.node]:\n", Also: [][3]string{{"interp/cfg.go", "func getVarDependencies(nod *node, sc *scope) (deps []*node) {\n", "func getVarDependencies(nod *node, sc *scope) (deps []*node) {\n\tcalls := false\n\tnod.Walk(func(n *node) bool {\n\t\tcalls = calls || n.kind == callExpr\n\t\treturn !calls\n\t}, nil)\n"}}, Rule: "R15.16", Key: "getVarDependencies/descent#3/whatever-the-shape-of-the-initialiser"},
 	)
 }
+
+func init() {
+	addMutants(
+		// round-8 seeds (simplified), second batch
+		mutant{Name: "symbols-result-remembered-per-import-path", Prop: "C07", File: "interp/use.go", Old: "func (interp *Interpreter) Symbols(importPath string) Exports {\n\tm := map[string]map[string]reflect.Value{}\n\tinterp.mutex.RLock()\n\tdefer interp.mutex.RUnlock()\n", New: "func (interp *Interpreter) Symbols(importPath string) Exports {\n\tinterp.mutex.Lock()\n\tdefer interp.mutex.Unlock()\n\tif interp.symbols == nil {\n\t\tinterp.symbols = map[string]Exports{}\n\t}\n\tif r, ok := interp.symbols[importPath]; ok {\n\t\treturn r\n\t}\n\tm := map[string]map[string]reflect.Value{}\n\tinterp.symbols[importPath] = m\n", Also: [][3]string{{"interp/interp.go", "\troots    []*node\n", "\troots    []*node\n\tsymbols  map[string]Exports\n"}}, Rule: "R07.22", Key: "Interpreter.Symbols/computed-from-the-current-tables-at-each-call"},
+		mutant{Name: "receiver-offset-lost-in-one-variadic-test", Prop: "C07", File: "interp/run.go", Old: "\t\t\tif variadic >= 0 && i+rcvrOffset >= variadic {\n\t\t\t\tdefType = funcType.In(variadic)\n", New: "\t\t\tif variadic >= 0 && i >= variadic {\n\t\t\t\tdefType = funcType.In(variadic)\n", Rule: "R07.23", Key: "callBin/variadic-test#2/position-in-the-parameter-list"},
+		mutant{Name: "benign-variadic-position-in-a-local", Prop: "C07", File: "interp/run.go", Old: "\t\t\tif variadic >= 0 && i+rcvrOffset >= variadic {\n\t\t\t\tdefType = funcType.In(variadic)\n", New: "\t\t\tpos := rcvrOffset + i\n\t\t\tif variadic >= 0 && pos >= variadic {\n\t\t\t\tdefType = funcType.In(variadic)\n", Benign: true},
+		mutant{Name: "literal-called-in-place-shares-the-live-frame", Prop: "C08", File: "interp/run.go", Old: "\tn.exec = func(f *frame) bltn {\n\t\tfr := f.clone()\n\n\t\tfct := reflect.MakeFunc(n.typ.TypeOf(), func(in []reflect.Value) []reflect.Value {\n", New: "\tinPlace := n.anc != nil && n.anc.kind == callExpr && n.anc.child[0] == n && n.anc.anc != nil && n.anc.anc.kind != deferStmt\n\tn.exec = func(f *frame) bltn {\n\t\tfr := f\n\t\tif !inPlace {\n\t\t\tfr = f.clone()\n\t\t}\n\n\t\tfct := reflect.MakeFunc(n.typ.TypeOf(), func(in []reflect.Value) []reflect.Value {\n", Rule: "R08.14", Key: "getFunc/closure-frame-is-a-clone"},
+		mutant{Name: "excluded-files-remembered-by-name", Prop: "C17", File: "interp/ast.go", Old: "\tif ok, err := interp.buildOk(&interp.context, name, src); !ok || err != nil {\n\t\treturn nil, err // skip source not matching build constraints\n\t}\n", New: "\tif !inc && interp.excluded[name] {\n\t\treturn nil, nil\n\t}\n\tif ok, err := interp.buildOk(&interp.context, name, src); !ok || err != nil {\n\t\tif err == nil && !inc {\n\t\t\tif interp.excluded == nil {\n\t\t\t\tinterp.excluded = map[string]bool{}\n\t\t\t}\n\t\t\tinterp.excluded[name] = true\n\t\t}\n\t\treturn nil, err // skip source not matching build constraints\n\t}\n", Also: [][3]string{{"interp/interp.go", "\troots    []*node\n", "\troots    []*node\n\texcluded map[string]bool\n"}}, Rule: "R17.15", Key: "Interpreter.parse/buildOk#1/verdict-not-remembered"},
+		mutant{Name: "constant-imports-registered-for-every-untyped-constant", Prop: "C18", File: "extract/extract.go", Old: "\tdefault:\n\t\treturn name\n\t}\n\n\timports[\"go/constant\"] = true\n\timports[\"go/token\"] = true\n\n\treturn fmt.Sprintf(", New: "\tdefault:\n\t\timports[\"go/constant\"] = true\n\t\timports[\"go/token\"] = true\n\t\treturn name\n\t}\n\n\timports[\"go/constant\"] = true\n\timports[\"go/token\"] = true\n\n\treturn fmt.Sprintf(", Rule: "R18.12", Key: "fixConst/import:go/constant#3/registered-where-it-is-used"},
+	)
+}
